@@ -176,3 +176,95 @@ fn tail(ctx: &mut Ctx) {
     }
     ctx.line("sig noop", "ok");
 }
+
+/// labels (element, occurrence number) of a sequence, in sequence order
+fn labels_of(seq: &[u64]) -> Vec<(u64, u64)> {
+    let mut cnt = std::collections::HashMap::new();
+    seq.iter().map(|x| { let c = cnt.entry(*x).or_insert(0u64); *c += 1; (*x, *c) }).collect()
+}
+
+/// exact order-min-hash probability of the property: fraction of the rankings of all (element, occurrence) pairs
+/// of A and B under which the l lowest-ranked pairs of each sequence, read in sequence order, spell the same elements
+pub fn omh_probability(a: &[u64], b: &[u64], l: usize) -> (u64, u64) {
+    let (la, lb) = (labels_of(a), labels_of(b));
+    let mut all: Vec<(u64, u64)> = la.iter().chain(lb.iter()).cloned().collect();
+    all.sort(); all.dedup();
+    let n = all.len();
+    let idx: Vec<u64> = (0..n as u64).collect();
+    let spell = |lab: &Vec<(u64, u64)>, rank: &std::collections::HashMap<(u64, u64), usize>| -> Vec<u64> {
+        let mut pos: Vec<usize> = (0..lab.len()).collect();
+        pos.sort_by_key(|i| rank[&lab[*i]]);
+        let mut sel: Vec<usize> = pos[..l].to_vec();
+        sel.sort();
+        sel.iter().map(|i| lab[*i].0).collect()
+    };
+    let (mut hit, mut tot) = (0u64, 0u64);
+    for perm in permutations(&idx) {
+        let rank: std::collections::HashMap<(u64, u64), usize> = all.iter().cloned().zip(perm.iter().map(|x| *x as usize)).collect();
+        tot += 1;
+        if spell(&la, &rank) == spell(&lb, &rank) { hit += 1; }
+    }
+    (hit, tot)
+}
+
+/// C10: empirical fraction of equal signature positions over fresh random element labels vs the exact order-min-hash
+/// probability (enumeration of all rankings), for small sequence pairs with and without repeated elements.
+/// A statistical SEARCH AID on the implementation (6 sigma + 0.01), not a proof; what it finds is replayable
+/// because every label is derived from the run's seed.
+pub fn omh_statistics(ctx: &mut Ctx) {
+    let pairs: Vec<(Vec<u64>, Vec<u64>)> = vec![
+        ((0..8).collect(), vec![4, 5, 6, 7, 0, 1, 2, 3]),
+        ((0..7).collect(), vec![6, 7, 0, 1, 2, 3, 4]),
+        (vec![0, 1, 0], vec![0, 0, 1]),
+        (vec![0, 0, 1, 1], vec![0, 1, 0, 1]),
+        (vec![0, 1, 2, 0], vec![0, 0, 1, 2]),
+        (vec![0, 1, 0, 2, 0], vec![2, 0, 0, 1, 0]),
+        (vec![0, 1, 2, 3], vec![0, 1, 2, 4]),
+    ];
+    let trials = ctx.n(1500, 20000);
+    for (pi, (a, b)) in pairs.iter().enumerate() {
+        for l in [1usize, 2, 3] {
+            if l > a.len().min(b.len()) { continue; }
+            let (hit, tot) = omh_probability(a, b, l);
+            let p = hit as f64 / tot as f64;
+            for m in [1u32, 2, 8, 64] {
+                let mut rng = ctx.rng.fork();
+                ctx.begin_case(&format!("omh law pair#{} l={} m={} exact={}/{}", pi, l, m, hit, tot));
+                ctx.mark_nontrivial();
+                ctx.count(if labels_of(a).iter().any(|x| x.1 > 1) { "omh law: repeated elements" } else { "omh law: distinct elements" });
+                let mut eq = 0u64;
+                let mut sa = P::new(m, l);
+                let mut sb = P::new(m, l);
+                for _ in 0..trials {
+                    // fresh random labels for the symbols
+                    let sym: Vec<u64> = { let mut v = Vec::new(); while v.len() < 8 { let x = rng.next(); if !v.contains(&x) { v.push(x); } } v };
+                    let ra: Vec<u64> = a.iter().map(|s| sym[*s as usize]).collect();
+                    let rb: Vec<u64> = b.iter().map(|s| sym[*s as usize]).collect();
+                    let (ga, gb) = (sa.hash_set(&ra), sb.hash_set(&rb));
+                    eq += (0..m as usize).filter(|k| ga[*k] == gb[*k]).count() as u64;
+                }
+                let frac = eq as f64 / (trials as f64 * m as f64);
+                let sigma = (p * (1.0 - p) / trials as f64).sqrt();
+                if (frac - p).abs() > 6.0 * sigma + 0.01 {
+                    ctx.oracle_failure(serde_json::json!({"kind":"impl_violates_property","key":format!("omh-law:pair{}:l={}:m={}",pi,l,m),
+                        "what":"expected fraction of equal signature positions differs from the exact order-min-hash probability (fresh random labels)",
+                        "A":a,"B":b,"l":l,"m":m,"exact":format!("{}/{}",hit,tot),"exact_p":p,"observed":frac,"trials":trials,"sigma":sigma}));
+                }
+            }
+        }
+    }
+    // the structural reason behind a deviation, as a deterministic observation: two occurrences of one element must not
+    // receive identical values (a uniformly random ranking of the (element, occurrence) pairs has no ties)
+    for x in [1u64, 2, 12345, u64::MAX / 3] {
+        ctx.begin_case(&format!("omh ties: [x,x] m=1 l=2 x={}", x));
+        ctx.mark_nontrivial();
+        let mut p = P::new(1, 2);
+        let _ = p.hash_set(&[x, x]);
+        let (_, vals) = p.verif_store();
+        if vals.len() >= 2 && vals[0] == vals[1] {
+            ctx.oracle_failure(serde_json::json!({"kind":"impl_violates_property","key":"omh-tie:occurrences-share-first-draw",
+                "what":"the two occurrences (x,1) and (x,2) of one element receive the SAME hash value: the ranking of (element, occurrence) pairs is not uniform (ties with probability 1)",
+                "x":x,"m":1,"l":2,"values":[fhx(vals[0]), fhx(vals[1])]}));
+        }
+    }
+}
